@@ -78,6 +78,10 @@ fn ber_exp(x: f64, ccs: f64, random_bytes: [u8; 7]) -> bool {
     let z = ((((approx_exp(r, ccs) as u128) << 1) - 1) >> shamt) as u64;
     let mut w = 0i16;
     for (index, i) in (0..64).step_by(8).rev().enumerate() {
+        if index >= random_bytes.len() {
+            // all supplied bytes tie with z
+            break;
+        }
         let byte = random_bytes[index];
         w = (byte as i16) - (((z >> i) & 0xff) as i16);
         if w != 0 {
